@@ -1,4 +1,5 @@
 import Dbus.Proofs.ObjectTree
+import Dbus.Proofs.ObjectTreeLive
 /-
   C20 — object-path handlers are chosen by exact path, then nearest fallback.
   Property theorems only; helper lemmas live in Dbus/Proofs/ObjectTree.lean.
@@ -195,5 +196,115 @@ example :
     let ops := [Op.reg [a] (true, 1), Op.reg [a, b] (false, 2), Op.reg [a] (false, 3), Op.unreg [a, b]]
     handlers (runTree ops) [a, b, a] = [1] ∧ (stepTree (runTree ops) (Op.reg [a] (false, 3))).2 = false := by
   decide
+
+/-! ### the child listing reflects exactly the registered tree -/
+
+theorem findChild_some_mem : ∀ (cs : List (Bytes × Node)) (e : Bytes) (c : Node), findChild cs e = some c → (e, c) ∈ cs
+  | [], _, _, h => by simp [findChild] at h
+  | (k, c0) :: cs, e, c, h => by
+    simp only [findChild] at h
+    split at h
+    · rename_i hk; simp only [Option.some.injEq] at h; subst h; subst hk; exact List.mem_cons_self
+    · exact List.mem_cons_of_mem _ (findChild_some_mem cs e c h)
+
+theorem findChild_of_mem_sorted : ∀ (cs : List (Bytes × Node)) (e : Bytes) (c : Node), SortedKeys cs → (e, c) ∈ cs →
+    findChild cs e = some c
+  | [], _, _, _, h => by cases h
+  | (k, c0) :: cs, e, c, hs, h => by
+    simp only [SortedKeys] at hs
+    simp only [findChild]
+    rcases List.mem_cons.mp h with heq | hmem
+    · cases heq; simp
+    · have hlt := hs.1 (e, c) hmem
+      have hne : e ≠ k := fun he => by subst he; rw [bytesLt_irrefl] at hlt; cases hlt
+      simp only [hne, if_false]
+      exact findChild_of_mem_sorted cs e c hs.2 hmem
+
+theorem wfl_mem : ∀ (cs : List (Bytes × Node)) (e : Bytes) (c : Node), WFL cs → (e, c) ∈ cs → WF c
+  | [], _, _, _, h => by cases h
+  | (k, c0) :: cs, e, c, hw, h => by
+    simp only [WFL] at hw
+    rcases List.mem_cons.mp h with heq | hmem
+    · cases heq; exact hw.1
+    · exact wfl_mem cs e c hw.2 hmem
+
+theorem liveL_mem : ∀ (cs : List (Bytes × Node)) (e : Bytes) (c : Node), LiveL cs → (e, c) ∈ cs → hasReg c = true ∧ Live c
+  | [], _, _, _, h => by cases h
+  | (k, c0) :: cs, e, c, hl, h => by
+    simp only [LiveL] at hl
+    rcases List.mem_cons.mp h with heq | hmem
+    · cases heq; exact ⟨hl.1, hl.2.1⟩
+    · exact liveL_mem cs e c hl.2.2 hmem
+
+theorem listChildren_cons (n : Node) (x : Bytes) (p : Path) :
+    listChildren n (x :: p) = match findChild n.children x with | some c => listChildren c p | none => [] := by
+  unfold listChildren
+  simp only [lookupNode]
+  cases findChild n.children x <;> rfl
+
+/-- in a well-formed trie without dead branches, the names listed below `p` are exactly the next path
+    elements of the registrations strictly below `p` -/
+theorem children_iff : ∀ (p : Path) (n : Node), WF n → Live n → ∀ e,
+    (e ∈ listChildren n p ↔ ∃ q r, lookup n (p ++ e :: q) = some r)
+  | [], n, hwf, hlv, e => by
+    obtain ⟨h, f, cs⟩ := n
+    simp only [WF] at hwf
+    simp only [Live] at hlv
+    simp only [listChildren, lookupNode, Node.children, List.nil_append, lookup_cons', List.mem_map]
+    constructor
+    · rintro ⟨⟨k, c⟩, hmem, rfl⟩
+      obtain ⟨hr, _⟩ := liveL_mem cs k c hlv hmem
+      obtain ⟨q, r, hq⟩ := hasReg_lookup c (wfl_mem cs k c hwf.2 hmem) hr
+      exact ⟨q, r, by unfold lookupL; rw [findChild_of_mem_sorted cs k c hwf.1 hmem]; exact hq⟩
+    · rintro ⟨q, r, hq⟩
+      unfold lookupL at hq
+      cases hf : findChild cs e with
+      | none => rw [hf] at hq; cases hq
+      | some c => exact ⟨(e, c), findChild_some_mem cs e c hf, rfl⟩
+  | x :: p, n, hwf, hlv, e => by
+    obtain ⟨h, f, cs⟩ := n
+    simp only [WF] at hwf
+    simp only [Live] at hlv
+    rw [listChildren_cons]
+    simp only [Node.children, List.cons_append, lookup_cons']
+    unfold lookupL
+    cases hf : findChild cs x with
+    | none => simp
+    | some c =>
+      have hmem := findChild_some_mem cs x c hf
+      exact children_iff p c (wfl_mem cs x c hwf.2 hmem) (liveL_mem cs x c hlv hmem).2 e
+
+theorem stepTree_live (n : Node) (op : Op) (h : Live n) : Live (stepTree n op).1 := by
+  cases op with
+  | reg p r =>
+    simp only [stepTree]
+    cases hr : registerN n p r with
+    | none => exact h
+    | some n' => exact registerN_live n p r n' h hr
+  | unreg p =>
+    simp only [stepTree]
+    cases hr : unregisterN n p with
+    | none => exact h
+    | some n' => exact unregisterN_live n p n' h hr
+
+/-- no reachable trie has a dead branch: unregistration prunes what registration created -/
+theorem no_dead_branch (ops : List Op) : Live (runTree ops) := by
+  unfold runTree
+  suffices h : ∀ (n : Node), Live n → Live (ops.foldl (fun n op => (stepTree n op).1) n) from
+    h _ (by simp [Node.empty, Live, LiveL])
+  induction ops with
+  | nil => intro n h; exact h
+  | cons op ops ih => intro n h; exact ih _ (stepTree_live n op h)
+
+/-- **The child listing reflects exactly the registered tree**, in every reachable state: `e` is listed
+    below `p` iff some registration of the specification's map lies at `p/e` or below it. -/
+theorem children_eq_spec (ops : List Op) (p : Path) (e : Bytes) :
+    e ∈ listChildren (runTree ops) p ↔ ∃ q r, runMap ops (p ++ e :: q) = some r := by
+  obtain ⟨hwf, habs⟩ := tree_refines_set ops
+  rw [children_iff p _ hwf (no_dead_branch ops) e]
+  constructor
+  · rintro ⟨q, r, h⟩; exact ⟨q, r, by rw [← habs]; exact h⟩
+  · rintro ⟨q, r, h⟩; exact ⟨q, r, by rw [habs]; exact h⟩
+
 
 end Dbus.Props.C20
